@@ -137,3 +137,21 @@ type Stater interface {
 type GenesisStater interface {
 	GenesisState(ctx sdk.Context) string
 }
+
+// BlockCloser is implemented by runners of modules with begin/end-block processing: CloseBlock
+// finishes the current block the way the chain would (runs the module's end blocker at the
+// current height) and returns the context of the next height. An application exports only
+// committed state, i.e. at a block boundary; the genesis round trip uses this so that it never
+// exports a mid-block state (e.g. a farm pool still queued at its own end height, or destroyed
+// in the current block) that no chain could export.
+// Continuer is implemented by runners whose module has time-driven items (expiry queues, pool
+// ends, pending requests): Continuation returns block-processing operation lines (no user
+// messages) that drive the chain through every height at which an item pending in ctx falls
+// due. h_genesis executes them on the original and on the re-imported state and compares.
+type Continuer interface {
+	Continuation(ctx sdk.Context) []string
+}
+
+type BlockCloser interface {
+	CloseBlock(ctx sdk.Context) sdk.Context
+}
